@@ -231,7 +231,9 @@ type Step struct {
 	Intents []IntentOp `json:"intents"`
 }
 
+// (HistCase.GNMI: "" or the encoding of a real gNMI target that receives every change next to the recording device)
 type HistCase struct {
+	GNMI string `json:"gnmi,omitempty"`
 	Universe string    `json:"universe"`
 	Palette  []string  `json:"palette"`
 	Initial  []LeafSel `json:"initial,omitempty"`
